@@ -240,8 +240,15 @@ def run(ctx):
                 if all(k for k in keys):
                     if rfc != [(k, v) for k, v in bp]:
                         fails.append(({'dict': repr(d)}, obs, f"independent RFC 6763 parser reads {rfc!r}, given {bp!r}"))
+                # the description's own view of what it was given: same keys and values, as bytes
+                own = list(info.properties.items())
+                norm = lambda items: [(k, (v or None)) for k, v in items]  # noqa: E731
+                if any(not isinstance(k, bytes) or not (v is None or isinstance(v, bytes)) for k, v in own) \
+                        or norm(own) != norm(bp):
+                    fails.append(({'dict': repr(d)}, obs, f"ServiceInfo.properties is {own!r}, expected the bytes form of {bp!r}"))
                 # decoded_properties must not raise
                 _ = info2.decoded_properties
+                _ = info.decoded_properties
             ctx.hist('txt:ok')
         except ValueError:
             obs = [1, 5]
